@@ -10,6 +10,7 @@ import (
 	"sort"
 	"strings"
 	"sync"
+	"sync/atomic"
 	"time"
 
 	"github.com/Shopify/sarama"
@@ -18,24 +19,26 @@ import (
 )
 
 type Scenario struct {
-	Seed       uint64
-	Focus      string
-	Brokers    int
-	Partitions int32
-	LogLen     []int // per partition
-	Start      []int64
-	StartKind  []string // "literal" | "oldest" | "newest"
-	Version    sarama.KafkaVersion
-	MaxRecs    int
-	ChanBuf    int
-	Icepts     int
-	PanicIcept int
-	ProcMs     int   // MaxProcessingTime in ms
-	SlowAt     map[int]int // message index (global delivery count) -> sleep ms
-	Faults     map[int]sarama.VerifSimFetchFault
-	MoveAt     int // fetch number after which leadership of partition 0 moves (0 = never)
-	CloseAfter int // close after this many delivered messages (-1: after everything was delivered)
-	Appends    int // records appended while consuming (to partition 0)
+	Seed        uint64
+	Focus       string
+	Brokers     int
+	Partitions  int32
+	LogLen      []int // per partition
+	Start       []int64
+	StartKind   []string // "literal" | "oldest" | "newest"
+	Version     sarama.KafkaVersion
+	MaxRecs     int
+	ChanBuf     int
+	Icepts      int
+	PanicIcept  int
+	ProcMs      int         // MaxProcessingTime in ms
+	SlowAt      map[int]int // message index (global delivery count) -> sleep ms
+	Faults      map[int]sarama.VerifSimFetchFault
+	MoveAt      int  // fetch number after which leadership of partition 0 moves (0 = never)
+	LoseAt      int  // fetch number at which partition 0 loses its leader for good: it is closed while unreachable (0 = never)
+	ZeroBackoff bool // Consumer.Retry.Backoff = 0
+	CloseAfter  int  // close after this many delivered messages (-1: after everything was delivered)
+	Appends     int  // records appended while consuming (to partition 0)
 }
 
 type Delivered struct {
@@ -129,6 +132,16 @@ func Gen(seed uint64, focus string) *Scenario {
 	if focus == "C12" || r.Chance(1, 6) {
 		sc.CloseAfter = r.Range(0, total)
 	}
+	if r.Chance(1, 8) {
+		// partition 0 loses its leader for good while being consumed; its consumer keeps re-dispatching in vain and is
+		// then closed (shutdown must complete while the cluster is unreachable, whatever the back-off)
+		sc.LoseAt = r.Range(1, 4)
+		sc.ZeroBackoff = r.Bool()
+		sc.MoveAt = 0
+		sc.CloseAfter = -1
+		sc.Faults[sc.LoseAt] = sarama.VerifSimFetchFault{Kind: "err", Code: sarama.ErrNotLeaderForPartition}
+		return sc
+	}
 	if focus != "C12" && r.Chance(1, 7) {
 		// a slow reader on one partition gets unsubscribed from the broker worker (two expiry ticks) while the worker,
 		// still fetching for the other partition on the same broker, loses its connection
@@ -162,18 +175,19 @@ func (sc *Scenario) String() string {
 	}
 	return fmt.Sprintf("seed=%d focus=%s brokers=%d parts=%d log=%v start=%v/%v ver=%s maxrecs=%d buf=%d icepts=%d/%d proc=%dms slow=%v faults=[%s] move=%d closeAfter=%d appends=%d",
 		sc.Seed, sc.Focus, sc.Brokers, sc.Partitions, sc.LogLen, sc.StartKind, sc.Start, sc.Version, sc.MaxRecs, sc.ChanBuf, sc.Icepts, sc.PanicIcept,
-		sc.ProcMs, sc.SlowAt, strings.Join(fs, ","), sc.MoveAt, sc.CloseAfter, sc.Appends)
+		sc.ProcMs, sc.SlowAt, strings.Join(fs, ","), sc.MoveAt, sc.CloseAfter, sc.Appends) + fmt.Sprintf(" loseAt=%d zeroBackoff=%v", sc.LoseAt, sc.ZeroBackoff)
 }
 
 type cicept struct {
 	k     int
 	panic bool
+	n     int32
 }
 
 func (c *cicept) OnConsume(m *sarama.ConsumerMessage) {
 	m.Headers = append(m.Headers, &sarama.RecordHeader{Key: []byte(fmt.Sprintf("i%d", c.k)), Value: []byte("x")})
 	if c.panic {
-		panic("consumer interceptor panic (scripted)")
+		scriptedPanic(int(atomic.AddInt32(&c.n, 1)), "consumer interceptor panic (scripted)")
 	}
 }
 
@@ -183,7 +197,9 @@ func recKey(p int32, i int) []byte {
 	}
 	return []byte(fmt.Sprintf("k%d.%d", p, i))
 }
-func recVal(p int32, i int) []byte { return []byte(fmt.Sprintf("v%d.%d.%s", p, i, strings.Repeat("x", i%7))) }
+func recVal(p int32, i int) []byte {
+	return []byte(fmt.Sprintf("v%d.%d.%s", p, i, strings.Repeat("x", i%7)))
+}
 
 func Run(sc *Scenario) *Result {
 	res := &Result{Sc: sc, Delivered: map[int32][]Delivered{}, Logs: map[int32][]sarama.VerifSimRecord{}, StartAt: map[int32]int64{}}
@@ -200,6 +216,9 @@ func Run(sc *Scenario) *Result {
 		}
 	}
 	sim.FetchFault = func(n int, broker int32) sarama.VerifSimFetchFault {
+		if sc.LoseAt > 0 && n == sc.LoseAt {
+			sim.SetLeader("t", 0, -1)
+		}
 		if sc.MoveAt > 0 && n == sc.MoveAt {
 			cur := sim.Leader("t", 0)
 			sim.SetLeader("t", 0, cur%int32(sc.Brokers)+1)
@@ -215,6 +234,9 @@ func Run(sc *Scenario) *Result {
 	cfg.Consumer.Return.Errors = true
 	cfg.Consumer.MaxProcessingTime = time.Duration(sc.ProcMs) * time.Millisecond
 	cfg.Consumer.Retry.Backoff = time.Millisecond
+	if sc.ZeroBackoff {
+		cfg.Consumer.Retry.Backoff = 0
+	}
 	cfg.Consumer.MaxWaitTime = 5 * time.Millisecond
 	cfg.Net.ReadTimeout = 150 * time.Millisecond
 	cfg.Net.DialTimeout = 500 * time.Millisecond
@@ -235,8 +257,24 @@ func Run(sc *Scenario) *Result {
 		}
 		rec.Event(kind, key, a, b)
 	}
+	var ownPanics []string
+	if rec == nil {
+		// no life-cycle recording: still keep a panic inside one of the library's goroutines from taking the harness
+		// process down; it is an outcome of the scenario
+		sarama.PanicHandler = func(v interface{}) {
+			evMu.Lock()
+			ownPanics = append(ownPanics, fmt.Sprint(v))
+			evMu.Unlock()
+		}
+	}
 	defer func() {
 		res.Life, res.LifePanic = rec.End()
+		if rec == nil {
+			sarama.PanicHandler = nil
+			evMu.Lock()
+			res.LifePanic = append(res.LifePanic, ownPanics...)
+			evMu.Unlock()
+		}
 		sarama.VerifSinkKV = nil
 	}()
 	c, err := sarama.NewConsumer(sim.Addrs(), cfg)
@@ -315,6 +353,9 @@ func Run(sc *Scenario) *Result {
 		target = sc.CloseAfter
 	}
 	deadline := time.Now().Add(8 * time.Second)
+	if sc.LoseAt > 0 {
+		deadline = time.Now().Add(250 * time.Millisecond) // partition 0 will not get there: close it while it is unreachable
+	}
 	for time.Now().Before(deadline) {
 		mu.Lock()
 		d := delivered
@@ -368,7 +409,9 @@ type Fail struct{ Sig, Detail string }
 
 func Check(res *Result) []Fail {
 	var fails []Fail
-	add := func(sig, format string, a ...interface{}) { fails = append(fails, Fail{sig, fmt.Sprintf(format, a...)}) }
+	add := func(sig, format string, a ...interface{}) {
+		fails = append(fails, Fail{sig, fmt.Sprintf(format, a...)})
+	}
 	sc := res.Sc
 	if res.NewErr != "" {
 		return nil
@@ -382,6 +425,10 @@ func Check(res *Result) []Fail {
 	}
 	if len(res.LifePanic) > 0 {
 		add("C12:consumer-goroutine-panic", "recovered in one of the consumer's goroutines: %s", strings.Join(res.LifePanic, " | "))
+		if sc.PanicIcept >= 0 {
+			// "a panicking interceptor is contained": its panic must not reach the goroutine that ran it
+			add("C18:consumer-interceptor-panic-escaped", "an interceptor's panic escaped into the feeder goroutine: %s", strings.Join(res.LifePanic, " | "))
+		}
 	}
 	for p := int32(0); p < sc.Partitions; p++ {
 		log := res.Logs[p]
@@ -439,7 +486,7 @@ func Check(res *Result) []Fail {
 				add(sig, "partition %d offset %d carries interceptor marks %v, expected %v", p, m.Offset, marks, wantMarks)
 			}
 		}
-		if sc.CloseAfter < 0 && !res.Reached {
+		if sc.CloseAfter < 0 && !res.Reached && sc.LoseAt == 0 {
 			got := len(d)
 			want := len(log) - int(start)
 			if got < want {
@@ -448,4 +495,24 @@ func Check(res *Result) []Fail {
 		}
 	}
 	return fails
+}
+
+type panicCode int
+
+// scriptedPanic panics with values of different kinds in turn: a string, an error, a value of a private integer type,
+// a struct, and a genuine runtime error
+func scriptedPanic(n int, text string) {
+	switch n % 5 {
+	case 0:
+		panic(text)
+	case 1:
+		panic(fmt.Errorf("%s", text))
+	case 2:
+		panic(panicCode(42))
+	case 3:
+		panic(struct{ Why string }{text})
+	default:
+		var m map[string]int
+		m[text] = 1 // assignment to entry in nil map
+	}
 }
